@@ -243,6 +243,18 @@ def orphan_layout():
     }
 
 
+def dotnames_layout():
+    """function names that contain regular-expression metacharacters: 'foo.x' (and 'fooax', which the pattern foo.x would
+    also match), '$s4x'"""
+    spec = orphan_layout()
+    blocks = spec["sections"][0]["blocks"]
+    blocks[0]["syms"] = ["foo.x"]
+    blocks[2]["syms"] = ["fooax", "s2"]
+    blocks[4]["syms"] = ["$s4x"]
+    spec["entry_point"] = None
+    return spec
+
+
 def shapes(tier):
     out = []
     layouts = {"text": lambda: rewrite_shapes.text_layout("jcc:s0", annots=False),
@@ -277,6 +289,13 @@ def shapes(tier):
         spec = orphan_layout()
         spec["mods"] = copy.deepcopy(mods)
         out.append(("orphan/%s" % name_of(mods), spec))
+    # literal names are compared as strings, not as patterns
+    for mods in ([scope("all_blocks", "ENTRY", exclude=["foo.x"])], [scope("all_functions", "ENTRY", fpos="ENTRY", functions=["foo.x"])],
+                 [scope("all_functions", "EXIT", fpos="EXIT", functions=["$s4x"])], [scope("all_blocks", "ENTRY", exclude=["$s4x", "fooax"])],
+                 [scope("all_functions", "ENTRY", fpos="ENTRY", functions=["re:foo.x"])]):
+        spec = dotnames_layout()
+        spec["mods"] = copy.deepcopy(mods)
+        out.append(("dotnames/%s" % name_of(mods), spec))
     # registration order at the same location, across passes and mixed with insert_at
     ins = rewrite_shapes.ins
     combos = [
